@@ -57,7 +57,7 @@ class Check(FormulaCheck):
             'dyadic/decimal fractions of either sign (|x| <= 1e9), digits -6..6, significances of either sign; 1..3999 x forms 0..4 is exhaustive. '
             'non-trivial = oracle fully evaluated; distinct = distinct (function, arguments).')
     ASSUMPTIONS = ('CEILING/FLOOR of a positive number with a negative significance may be an error or the adjacent multiple on the function\'s own side; significance 0 gives 0 or an error; ROUND tie direction is free',
-                   'FACT arguments <= 170, FACTDOUBLE <= 300; bounded time is decided in line events (budget 20000+400*len), never in seconds',
+                   'FACT arguments <= 170, FACTDOUBLE <= 300; quotients beyond 1e300 are not judged; bounded time is decided in line events (budget 20000+400*len), never in seconds',
                    'out-of-range arguments must give any error code, never a value')
 
     def plan(self, tier, seed):
@@ -89,6 +89,11 @@ class Check(FormulaCheck):
             j = rnd.randint(-6, 3)
             m = rnd.randint(0, 2000) * 10.0 ** j
             return s * (m + rnd.choice([1, -1]) * 10.0 ** (j - rnd.randint(9, 13)))
+        if k < 0.93:
+            # one ulp beside a whole number (also 2**j and 2**j - 1, where the ulp changes), and whole floats at and beyond 2**53
+            j = rnd.randint(0, 40)
+            w = float(rnd.choice([1, 2, 3, 7, 8, 2 ** j, 2 ** j - 1, 2 ** j + 1, rnd.randint(1, 10 ** 6)]))
+            return s * rnd.choice([math.nextafter(w, math.inf), math.nextafter(w, 0.0), float(2 ** 53), float(2 ** 53 + 2), 1e16, 1e17, float(3 ** 34), 2.0 ** rnd.randint(53, 70)])
         return s * rnd.choice([1.1, 2.3, 1.005, 0.1, 0.7, 1e-7, 123456.789, 0.29, 4.35, 999999999.9])
 
     def c_rounding(self, spec, rec):
@@ -185,7 +190,10 @@ class Check(FormulaCheck):
                 continue
             Q = X / Y
             lo, hi = sorted((math.trunc(Q * (1 + BAND)), math.trunc(Q * (1 - BAND))))      # every truncation of a quotient within the band
-            self.expect('C17/QUOTIENT', finite(q) and Fr(q).denominator == 1 and lo <= Fr(q) <= hi, x=x, y=y, got=q, expected=math.trunc(Q))
+            if abs(Q) >= 10 ** 300:
+                rec.count('quotient_beyond_double_range_not_judged')      # no double holds it: an error is as good as the integer
+            else:
+                self.expect('C17/QUOTIENT', finite(q) and Fr(q).denominator == 1 and lo <= Fr(q) <= hi, x=x, y=y, got=q, expected=math.trunc(Q))
             ok = finite(m)
             if ok:
                 M = Fr(m)
